@@ -281,13 +281,22 @@ def e2e(rep, tier, seed):
             spans.append((start, len(lines)))
             if rs.random() < 0.3:
                 lines.append("")
+        if si % 2:
+            # a trailing value expression (no semicolon): under the newest style edition it takes another path through the statement code
+            st = rs.choice(["compute%d( b,1 )", "if c%d { 1 }else{ 2 }", "match m%d {\n1=>2 ,\n_=>3 ,\n}", "{\nlet q%d = 1 ;\nq+1\n}", "x%d . y( ) . z( )", "[ 1,2 ,%d ]"]) % si
+            ind = " " * rs.choice([0, 2, 4, 7])
+            start = len(lines) + 1
+            for l in st.split("\n"):
+                lines.append(ind + l)
+            spans.append((start, len(lines)))
         lines.append("}")
         lines.append("fn  other( ) { }")
         text = "\n".join(lines) + "\n"
         pid = "synthstmt/%d" % si
         stmt_meta[pid] = (lines, spans)
+        se = [["style_edition", "2024"]] if si % 4 in (1, 2) else []
         for (a, b) in spans:
-            cases.append({"text": text, "config": [fl([(a, b)])], "again": False, "lex": False})
+            cases.append({"text": text, "config": [fl([(a, b)])] + se, "again": False, "lex": False})
             meta.append((pid, "stmt", 0, [(a, b)], []))
         cases.append({"text": text, "config": [], "again": False, "lex": False})
         meta.append((pid, "unrestricted", 0, None, []))
